@@ -1,4 +1,5 @@
 """Repository-specific contradiction lints (Engler et al.: a stated belief contradicted by the code next to it)."""
+import re
 from ..facts import strip, const_value, loc, canon, root_ref
 from ..ir import pretty
 from ..run import AnalysisBroken
@@ -291,4 +292,51 @@ def inclusive_do_loop_rule(chk, cid, prog, cfgname, units=('SRC/mc64ad.c',), flo
                             cfgname=cfgname)
     if n < floor:
         raise AnalysisBroken('%s: %d counted loops found in %s, floor %d' % (cid, n, units, floor))
+    return n
+
+
+def unused_induction_rule(chk, cid, prog, cfgname, units_prefix=('SRC/',), floor=400):
+    """`for (k = a; k < b; k++) xlsub[fsupc+1] = nextl;` - a counted loop whose body never mentions its own induction variable repeats one and the
+    same action; where the neighbouring code shows the variable was meant to select the element (`xlsub[k] = nextl`), the slip leaves all
+    other elements stale.  Counted loops over a local variable whose body and whose other header parts do not mention that variable are
+    reported, except loops that only count iterations on purpose: f2c dummy loops (idum/jdum), loops whose body advances another cursor
+    (p++, *p++ = .., x += stride) or calls a routine with the loop bound as argument, and loops that only write through cursors."""
+    chk.clause(cid, 'a counted loop uses its induction variable (or visibly advances another cursor)')
+    DUMMY = re.compile(r'^(idum|jdum|kdum|dummy|iter|count|it|irep|itry)$')
+    n = 0
+    for f in prog.all_funcs():
+        if not f.unit.startswith(units_prefix):
+            continue
+        for lp in f.body.walk():
+            if lp.k != 'For' or lp.c[0] is None or lp.c[1] is None or lp.c[2] is None:
+                continue
+            i0 = strip(lp.c[0])
+            if not (i0.k == 'Assign' and strip(i0.c[0]).k == 'Ref' and strip(i0.c[0]).a.get('dk') == 'VarDecl'):
+                continue
+            v = strip(i0.c[0])
+            vid = v.a.get('id')
+            inc = strip(lp.c[2])
+            if not (inc.k == 'Unary' and inc.a['op'] in ('++', '--') and strip(inc.c[0]).k == 'Ref' and strip(inc.c[0]).a.get('id') == vid):
+                continue
+            n += 1
+            body = lp.c[3]
+            used = any(y.k == 'Ref' and y.a.get('id') == vid for y in body.walk())
+            if used:
+                chk.ok(cid, '%s:%s:loop@%d' % (f.unit, f.name, n), nontrivial=False)
+                continue
+            chk.saw(unit=f.unit, func=f.unit + ':' + f.name)
+            advances = any((y.k == 'Unary' and y.a['op'] in ('++', '--')) or (y.k == 'Assign' and y.a['op'] in ('+=', '-=')) or y.k == 'Call'
+                           or (y.k == 'Assign' and strip(y.c[0]).k == 'Ref' and any(z.k == 'Ref' and z.a.get('id') == strip(y.c[0]).a.get('id') for z in y.c[1].walk()))
+                           for y in body.walk())       # p++, x += s, a call, or a chase `j = pr[j]`
+            inst = '%s:%s:loop-without-its-variable@%d' % (f.unit, f.name, n)
+            if DUMMY.match(v.a.get('name') or '') or advances:
+                chk.ok(cid, inst, sample='counts iterations: `%s`' % pretty(lp.c[1])[:40], nontrivial=True)
+            else:
+                stores = [y for y in body.walk() if y.k == 'Assign']
+                chk.violate(cid, '%s:loop-ignores-%s:%s' % (f.name, v.a.get('name'), pretty(stores[0])[:40].replace(' ', '') if stores else ''), loc(f, lp), f.name,
+                            'the loop `for (%s; %s; %s)` never uses %s in its body (`%s`): it repeats one action instead of visiting the elements %s selects'
+                            % (pretty(i0)[:30], pretty(lp.c[1])[:30], pretty(inc)[:10], v.a.get('name'), pretty(stores[0])[:50] if stores else pretty(body)[:50],
+                               v.a.get('name')), cfgname=cfgname)
+    if n < floor:
+        raise AnalysisBroken('%s: only %d counted loops found (floor %d)' % (cid, n, floor))
     return n
